@@ -289,8 +289,8 @@ func (x *c16Runner) forkModel(spec *c16TASpec, decId string, m *c16TAModel) {
 			return
 		}
 		if f["wf"] != "true" || f["fok"] != "true" {
-			if negZero {
-				r.hist("TA_model_fork_hypotheses_fail_negative_zero")
+			if negZero && f["fok"] == "true" {
+				r.hist("TA_model_fork_wf_fails_negative_zero")
 			} else {
 				r.violate(Violation{Kind: "correspondence", Key: "C16:fork-model:hypothesis",
 					What:  fmt.Sprintf("a hypothesis of the fork round-trip theorems fails (wfForkText=%s floatsOkBinds=%s) on a fork whose real _invocation compiles", f["wf"], f["fok"]),
